@@ -25,14 +25,14 @@ func SetFinalizer(obj any, finalizer any) {
 	runtime.SetFinalizer(obj, finalizer)
 }
 
-func KeepAlive(x any)                 { runtime.KeepAlive(x) }
-func GC()                             { runtime.GC() }
-func Gosched()                        { runtime.Gosched() }
-func NumCPU() int                     { return runtime.NumCPU() }
-func NumGoroutine() int               { return runtime.NumGoroutine() }
-func GOMAXPROCS(n int) int            { return runtime.GOMAXPROCS(n) }
-func Version() string                 { return runtime.Version() }
-func Stack(buf []byte, all bool) int  { return runtime.Stack(buf, all) }
+func KeepAlive(x any)                { runtime.KeepAlive(x) }
+func GC()                            { runtime.GC() }
+func Gosched()                       { runtime.Gosched() }
+func NumCPU() int                    { return runtime.NumCPU() }
+func NumGoroutine() int              { return runtime.NumGoroutine() }
+func GOMAXPROCS(n int) int           { return runtime.GOMAXPROCS(n) }
+func Version() string                { return runtime.Version() }
+func Stack(buf []byte, all bool) int { return runtime.Stack(buf, all) }
 func Caller(skip int) (pc uintptr, file string, line int, ok bool) {
 	return runtime.Caller(skip)
 }
